@@ -75,6 +75,11 @@ def is_write_fmt(c):
     return n.endswith("::write_fmt")
 
 
+def is_write_raw(c):
+    """io::Write::write_all / write: bytes handed to the output as they are."""
+    return (c.callee or "") in ("std::io::Write::write_all", "std::io::Write::write")
+
+
 def is_fmt_arg(c):
     return (c.name or "").startswith("core::fmt::rt::Argument::<'_>::new_")
 
@@ -175,6 +180,9 @@ def trace(lib, body, env=None, start=0, stop=(), model=None, skip_first_stmts=Fa
             del pending[:]
             return (True, OK(UNIT))
         cal = c.callee or ""
+        if is_write_raw(c):
+            tr.events.append(("write", c, None, None))
+            return (True, OK(UNIT))
         if cal in ("std::fmt::Write::write_str", "std::fmt::Write::write_char"):
             v = pe._deref_all(envv, av[1]) if len(av) > 1 else None
             text = None
@@ -978,18 +986,27 @@ def json_row(rep, lib):
             if cur is not None and cur[0] == "sbuf" and setbuf(pe, envv, av[0], ("sbuf", cur[1] + tuple(toks(add)))):
                 pe.keep_mut_args = True
             return (True, UNIT)
-        if cal == "std::ops::Deref::deref":
+        if cal == "std::ops::Deref::deref" or n.endswith(("String::as_bytes", "str::<impl str>::as_bytes",
+                                                          "String::as_str")):
             x = pe._deref_all(envv, av[0]) if av else None
             if x is not None and (x == L or x[0] == "sbuf"):
                 return (True, ("rv", x))
             return None
+        if n.endswith("String::clear") and av:
+            cur = pe._deref_all(envv, av[0])
+            if cur is not None and cur[0] == "sbuf" and setbuf(pe, envv, av[0], ("sbuf", ())):
+                pe.keep_mut_args = True
+            return (True, UNIT)
         if is_fmt_arg(c):
             pending.append((c.loc.get("line"), c.loc.get("col"), pe._deref_all(envv, av[0]) if av else None))
             return None
         if is_write_fmt(c) or cal.endswith("Write::write_all") or cal.endswith("Write::write"):
             site = fmt_site(lib, c)
             wrote = []
-            if site is None:
+            if not is_write_fmt(c) and len(av) >= 2:
+                # write_all(bytes): the bytes of a tracked buffer / of the separator
+                wrote.extend(toks(pe._deref_all(envv, av[1])))
+            elif site is None:
                 wrote.append("?")
             else:
                 args = [v for (ln, col, v) in pending if ln == c.loc.get("line") and col == c.loc.get("col")]
@@ -1017,7 +1034,20 @@ def json_row(rep, lib):
                 seqs.append(list(e.get(OUTK, ("out",))[1:]))
         return None
     pe.visit_hook = hook
-    res = pe.run(env={1: ("rv", ("adt", 0, tuple(selfv)))})
+    try:
+        res = pe.run(env={1: ("rv", ("adt", 0, tuple(selfv)))})
+    except RuntimeError as e:
+        if "state budget" not in str(e):
+            raise
+        res = None
+        r.bad("JsonProcess::process/row", "what is written for one row could not be evaluated (%s): the row is not "
+              "written as one printed value and one separator by straight-line code - unrecognised idiom" % e, b.where())
+    if res is not None:
+        _json_row_verdict(r, lib, b, res, seqs)
+    _json_row_value(r, lib, b, fields)
+
+
+def _json_row_verdict(r, lib, b, res, seqs):
     okret = [v for _, v in res.returns if v is not None and v[0] == "adt" and v[1] == 0]
     distinct = []
     for q in seqs:
@@ -1039,6 +1069,9 @@ def json_row(rep, lib):
               "row separator (V = text printed by the JSON printer, L = self.line_seperator)" % out, b.where())
     else:
         r.ok("JsonProcess::process/row", "writes V L (printed value, row separator)", b.where())
+
+
+def _json_row_value(r, lib, b, fields):
     # the value printed is Context::build() of the incoming row, printed by self.printer
     pr = Prov(b, common.LOOK + ("Deref>::deref",))
     ps = [c for c in b.calls if (c.callee or "").startswith("output_style::Print::print")]
@@ -1293,6 +1326,24 @@ def text_string_writer(rep, lib):
     _string_bypass(r, lib, b, site, {})
 
 
+def _single_text_written(lib, b, pr):
+    """Origins of the one text a body writes: the single `{}` argument of its one write!, or the argument of its one
+    write_str; None if the body writes anything else or more than once."""
+    ws = [c for c in b.calls if is_write_fmt(c)]
+    strs = [c for c in b.calls if (c.callee or "") == "std::fmt::Write::write_str"]
+    chars = [c for c in b.calls if (c.callee or "") == "std::fmt::Write::write_char"]
+    if chars or len(ws) + len(strs) != 1:
+        return None
+    if strs:
+        return pr.origins(strs[0].args[1]) if len(strs[0].args) > 1 else None
+    args = write_args(b, ws[0])
+    site_f = fmt_site(lib, ws[0])
+    if len(args) == 1 and site_f and [("ph" in p) for p in site_f["pieces"]] == [True] and \
+            not site_f["pieces"][0].get("width") and not site_f["pieces"][0].get("precision"):
+        return pr.origins(args[0].args[0])
+    return None
+
+
 def text_keywords(rep, lib):
     r = rep.rule("C15-KEYWORDS", "the text printer writes null / true / false with the configured keyword of that "
                  "very literal, and an absent value with the missing-value keyword or nothing", floor=4,
@@ -1302,15 +1353,10 @@ def text_keywords(rep, lib):
         if b is None:
             r.missing(TEXTP + m)
             continue
-        pr = Prov(b, common.LOOK)
-        ws = [c for c in b.calls if is_write_fmt(c)]
+        pr = Prov(b, common.LOOK + ("Deref>::deref", "String::as_str"))
         path = fpath(lib, (TPRN, "options"), (TOPT, fld))
-        okk = False
-        if len(ws) == 1 and path:
-            args = write_args(b, ws[0])
-            site_f = fmt_site(lib, ws[0])
-            okk = len(args) == 1 and site_f and [("ph" in p) for p in site_f["pieces"]] == [True] and \
-                _only_self_field(pr.origins(args[0].args[0]), path)
+        at = _single_text_written(lib, b, pr) if path else None
+        okk = at is not None and _only_self_field(at, path)
         if okk:
             r.ok("TextPrinter::" + m, "writes self.options.%s" % fld, b.where())
         else:
@@ -1319,15 +1365,10 @@ def text_keywords(rep, lib):
     if b is None:
         r.missing(TEXTP + "print_nothing")
         return
-    pr = Prov(b, common.LOOK)
+    pr = Prov(b, common.LOOK + ("Deref>::deref", "String::as_str"))
     path = fpath(lib, (TPRN, "options"), (TOPT, "missing_value_keyword"))
-    ws = [c for c in b.calls if is_write_fmt(c)]
-    good = len(ws) == 1 and path
-    if good:
-        args = write_args(b, ws[0])
-        site_f = fmt_site(lib, ws[0])
-        good = len(args) == 1 and site_f and [("ph" in p) for p in site_f["pieces"]] == [True] and \
-            _is_self_field(pr.origins(args[0].args[0]), path)
+    at = _single_text_written(lib, b, pr) if path else None
+    good = at is not None and _is_self_field(at, path)
     # the None edge writes nothing and returns Ok
     if good:
         tr = trace(lib, b, env={1: ("rv", ("adt", 0, (_opt_env(lib, None),)))})
@@ -1351,76 +1392,124 @@ def _opt_env(lib, _):
 def text_nested(rep, lib):
     r = rep.rule("C15-NESTED-QUOTED", "arrays and objects are rendered as concise UTF-8 JSON into a buffer and that "
                  "buffer is written through the text printer's string writer (quoting and escaping applied); nothing "
-                 "else is written", floor=2, analysis="A4 provenance + aggregate constants + A1 callee census")
+                 "else is written", floor=2,
+                 analysis="A5 partial evaluation of print_object / print_array (closures and helpers included) with the "
+                          "buffer, the value and the output as tokens: the sequence of renderings and writes")
+    consise = _variant_index(lib, "output_style::JsonStyle", "Consise")
+    jadt = lib.adts.get("output_style::JsonOutputOptions")
+    if consise is None or not jadt:
+        r.missing("output_style::JsonStyle::Consise / JsonOutputOptions")
+        return
+    jf = [f["name"] for f in jadt["variants"][0]["fields"]]
+    if "style" not in jf or "utf8_strings" not in jf:
+        r.missing("JsonOutputOptions.{style, utf8_strings}")
+        return
+    SELF, OUT, VAL = ("tok", "self"), ("tok", "out"), ("tok", "val")
     for m, jm in (("print_object", "print_object"), ("print_array", "print_array")):
         b = lib.bodies.get(TEXTP + m)
         key = "TextPrinter::" + m
         if b is None:
             r.missing(TEXTP + m)
             continue
-        pr = Prov(b, common.LOOK + ("Deref>::deref",))
-        aggs = [rv for bb, idx, place, rv, _ in b.assignments() if rv["k"] == "agg"
-                and rv.get("adt") == "output_style::JsonOutputOptions"]
-        jp = [c for c in b.calls if (c.name or "") == JSONP + jm]
-        ps = [c for c in b.calls if (c.name or "") == TEXTP + "print_string" or
-              ((c.callee or "").endswith("Print::print_string") and "TextPrinter" in (c.full or ""))]
-        others = [c for c in b.calls if is_write_fmt(c)]
-        consise = _variant_index(lib, "output_style::JsonStyle", "Consise")
+        events = []
+        nbuf = [0]
+
+        def model(c, av, envv, pe, jm=jm):
+            n = c.name or ""
+            cal = c.callee or ""
+            if n.endswith("String::new") or n.endswith("String::with_capacity"):
+                nbuf[0] += 1
+                return (True, ("tok", "buf%d" % nbuf[0]))
+            if n.startswith(JSONP) or (cal.startswith("output_style::Print::print") and
+                                       "JsonOutputOptions" in (c.full or "")):
+                events.append(("render", n[len(JSONP):] if n.startswith(JSONP) else cal.rsplit("::", 1)[-1],
+                               pe._deref_all(envv, av[0]) if av else None,
+                               pe._deref_all(envv, av[1]) if len(av) > 1 else None,
+                               pe._deref_all(envv, av[2]) if len(av) > 2 else None))
+                pe.keep_mut_args = True        # the buffer stays the same token (its contents are not tracked)
+                return (True, OK(UNIT))
+            if n.startswith(TEXTP) or (cal.startswith("output_style::Print::print") and "TextPrinter" in (c.full or "")):
+                events.append(("text", n[len(TEXTP):] if n.startswith(TEXTP) else cal.rsplit("::", 1)[-1],
+                               pe._deref_all(envv, av[0]) if av else None,
+                               pe._deref_all(envv, av[1]) if len(av) > 1 else None,
+                               pe._deref_all(envv, av[2]) if len(av) > 2 else None))
+                return (True, OK(UNIT))
+            if cal == "std::ops::Deref::deref" or n.endswith(("String::as_str", "String::as_mut_str")):
+                x = pe._deref_all(envv, av[0]) if av else None
+                if x is not None and x[0] == "tok":
+                    return (True, ("rv", x))
+                return None
+            if is_write_fmt(c) or is_write_raw(c) or cal in ("std::fmt::Write::write_str", "std::fmt::Write::write_char"):
+                events.append(("write", n or cal))
+                return (True, OK(UNIT))
+            return None
+        pe = PE(b, model, eq_ok=common.derived_eq_ok(lib), max_states=20000, crate=lib)
+        pe.model_in_closures = True
         problem = None
-        if len(aggs) != 1 or len(jp) != 1 or len(ps) != 1:
-            problem = "expected one JsonOutputOptions value, one JSON rendering and one print_string call " \
-                      "(found %d / %d / %d)" % (len(aggs), len(jp), len(ps))
-        elif others:
-            problem = "writes to the output directly"
-        else:
-            ag = aggs[0]
-            named = dict(zip(ag["fields"], ag["ops"]))
-            st = named.get("style", {})
-            u8 = named.get("utf8_strings", {})
-            style_ok = False
-            if st.get("k") == "const":
-                style_ok = st.get("int") == consise
+        try:
+            res = pe.run(env={1: ("rv", SELF), 2: ("rv", OUT), 3: ("rv", VAL)})
+        except RuntimeError as e:
+            res = None
+            problem = "not evaluated (%s): unrecognised idiom" % e
+        if res is not None:
+            renders = [e for e in events if e[0] == "render"]
+            texts = [e for e in events if e[0] == "text"]
+            writes = [e for e in events if e[0] == "write"]
+            okret = [v for _, v in res.returns if v is not None and v[0] == "adt" and v[1] == 0]
+            if res.forks:
+                problem = "what is written depends on something other than the value (fork at bb%d): unrecognised " \
+                          "idiom" % res.forks[0]
+            elif writes:
+                problem = "writes to the output directly"
+            elif len(renders) != 1 or len(texts) != 1 or events.index(renders[0]) > events.index(texts[0]):
+                problem = "expected one JSON rendering followed by one print_string call (found %s)" \
+                          % [e[:2] for e in events]
             else:
-                for a in pr.origins(st):
-                    if a[0] == "agg":
-                        rvv = b.stmts(a[1])[a[2]]["rv"]
-                        style_ok = rvv.get("variant") == consise
-            if not style_ok:
-                problem = "the nested JSON is not rendered in the concise style (whitespace or line breaks inside a field)"
-            elif not (u8.get("k") == "const" and u8.get("int") == 1):
-                problem = "the nested JSON is not rendered with utf8_strings = true"
-            else:
-                buf = pr.origins(jp[0].args[1])
-                txt = pr.origins(ps[0].args[2])
-                val = pr.origins(jp[0].args[2])
-                recv = pr.origins(ps[0].args[0])
-                wr = pr.origins(ps[0].args[1])
-                newb = {a[1] for a in buf if a[0] == "call" and (b.call_at[a[1]].name or "").endswith("String::new")}
-                same = {a[1] for a in txt if a[0] == "call"} & newb
-                if not newb or not same:
+                _, rm, opts, buf, val = renders[0]
+                _, tm, recv, out, text = texts[0]
+                st = opts[2][jf.index("style")] if opts is not None and opts[0] == "adt" and len(opts[2]) == len(jf) else None
+                u8 = opts[2][jf.index("utf8_strings")] if st is not None or (opts is not None and opts[0] == "adt"
+                                                                               and len(opts[2]) == len(jf)) else None
+                if rm != jm:
+                    problem = "the value is rendered by %s, not %s" % (rm, jm)
+                elif st is None or st[0] != "adt" or st[1] != consise:
+                    problem = "the nested JSON is not rendered in the concise style (whitespace or line breaks inside a field)"
+                elif u8 != ("b", True):
+                    problem = "the nested JSON is not rendered with utf8_strings = true"
+                elif buf is None or buf[0] != "tok" or not buf[1].startswith("buf") or text != buf:
                     problem = "the text handed to print_string is not the buffer the JSON was rendered into"
-                elif not any(a[0] == "arg" and a[1] == 3 for a in val):
+                elif val != VAL:
                     problem = "the value rendered is not the value being printed"
-                elif not any(a[0] == "arg" and a[1] == 1 for a in recv) or not any(a[0] == "arg" and a[1] == 2 for a in wr):
+                elif tm != "print_string" or recv != SELF or out != OUT:
                     problem = "print_string is not called on self with the output"
-                elif not b.dominates(jp[0].bb, ps[0].bb):
-                    problem = "the buffer is written before it is filled"
+                elif not okret:
+                    problem = "no Ok return reached"
         if problem:
             r.bad(key, problem, b.where())
         else:
-            r.ok(key, "concise utf8 JSON -> buffer -> self.print_string", ps[0].where())
+            r.ok(key, "concise utf8 JSON -> buffer -> self.print_string", b.where())
 
 
 def _text_write_kind(lib, b, pr, w, bufs):
     """Classify a write_fmt on the output by what it formats: 'V' (a buffer filled by the printer), 'S' (item
     separator), 'L' (line separator), or a description of anything else."""
+    sep = fpath(lib, (TPRO, "printer"), (TPRN, "options"), (TOPT, "items_seperator"))
+    line = fpath(lib, (TPRO, "line_seperator"))
+    if is_write_raw(w):
+        at = pr.origins(w.args[1]) if len(w.args) > 1 else set()
+        core = [a for a in at if a[0] in ("arg", "call", "agg", "local", "const")]
+        if sep and _only_self_field(at, sep):
+            return "S"
+        if line and _only_self_field(at, line):
+            return "L"
+        if bufs and core and all(a[0] == "call" and a[1] in bufs for a in core):
+            return "V"
+        return "<?data:" + ",".join(sorted({a[0] for a in at})) + ">"
     site_f = fmt_site(lib, w)
     if site_f is None:
         return "?template"
     kinds = []
     args = write_args(b, w)
-    sep = fpath(lib, (TPRO, "printer"), (TPRN, "options"), (TOPT, "items_seperator"))
-    line = fpath(lib, (TPRO, "line_seperator"))
     ai = 0
     for p in site_f["pieces"]:
         if "lit" in p:
@@ -1454,6 +1543,9 @@ def _printer_buffers(b, pr):
     return out
 
 
+BYTES_OF = ("String::as_bytes", "str::<impl str>::as_bytes", "String::as_str")     # the same text, seen as bytes
+
+
 def text_rows(rep, lib):
     r = rep.rule("C15-ROW", "a text/csv row is written as field (separator field)* line-separator, every field "
                  "being the printer's own rendering of that list element (quoting applied); header and data rows "
@@ -1472,9 +1564,9 @@ def text_rows(rep, lib):
                      for n, bd in lib.bodies.items()
                      if n.startswith(TPRO + "::") or n.startswith("<%s as " % TPRO))
     for nm, b in members:
-        pr = Prov(b, common.LOOK + ("Deref>::deref", "DerefMut>::deref_mut", "RefCell::<T>::borrow_mut"))
+        pr = Prov(b, common.LOOK + ("Deref>::deref", "DerefMut>::deref_mut", "RefCell::<T>::borrow_mut") + BYTES_OF)
         prints = _printer_buffers(b, pr)
-        for n, w in enumerate([c for c in b.calls if is_write_fmt(c)]):
+        for n, w in enumerate([c for c in b.calls if is_write_fmt(c) or is_write_raw(c)]):
             kind = _text_write_kind(lib, b, pr, w, prints)
             key = "TextProcess::%s#write[%d]" % (nm, n)
             if "?" in kind or "lit" in kind:
@@ -1489,7 +1581,7 @@ def text_rows(rep, lib):
         r.missing("TextProcess.length / the element loop of print_list")
     else:
         nfields = len(lib.adts[TPRO]["variants"][0]["fields"])
-        pr = Prov(pl, common.LOOK + ("Deref>::deref", "DerefMut>::deref_mut", "RefCell::<T>::borrow_mut"))
+        pr = Prov(pl, common.LOOK + ("Deref>::deref", "DerefMut>::deref_mut", "RefCell::<T>::borrow_mut") + BYTES_OF)
         prints = _printer_buffers(pl, pr)
         enumerated = "Option<(usize," in nxt[0].dest.get("ty", "").replace(" ", "")
         for k in (1, 2, 3):
